@@ -369,7 +369,7 @@ def harness_cases(tier, sd):
             add("gen", name, [B(top), {"op": "delete", "s": g}, B(top), B(top), {"op": "delete", "s": g}, B(top, "dry"), B(top)])
         if shape.get("dirs"):
             d = shape["dirs"][0]
-            for kind in ("rename", "swap", "edit", "hidden", "hidden-nested"):
+            for kind in ("rename", "swap", "edit", "hidden", "hidden-nested", "dangling"):
                 for rep in range(1 if quick else 3):
                     add("dir", name, [B(top), {"op": "edit_src", "s": d, "kind": kind}, B(top), {"op": "edit_src", "s": d, "kind": kind}, B(top)])
         # a dry run followed by a plain run (no options, as watch mode passes) on the same Project
@@ -511,7 +511,7 @@ def harness_cases(tier, sd):
                 s = rnd.choice(srcs)
                 st = {"op": "edit_src", "s": s}
                 if s in cur.get("dirs", []):
-                    st["kind"] = rnd.choice(["rename", "swap", "edit", "hidden", "hidden-nested"])
+                    st["kind"] = rnd.choice(["rename", "swap", "edit", "hidden", "hidden-nested", "dangling"])
                 steps.append(st)
             elif r < 0.80 and gens:
                 steps.append({"op": "delete", "s": rnd.choice(gens)})
@@ -633,6 +633,16 @@ def pipeline(tier):
                      env=dict(os.environ, VERIF_OUT=lwout, VERIF_SEED=str(sd), VERIF_LW_LEN="3" if quick else "4"), cwd=wd)
     if p.returncode != 0:
         raise Inconclusive("line writer harness failed (exit %d):\n%s" % (p.returncode, p.stdout[-2000:]))
+    # ... and written to by two goroutines at once (stdout and stderr of one target are one writer)
+    p = vlib.run_cmd([binary, "-test.run", "^TestVerifLineWriterConcurrent$", "-test.timeout", "600s"],
+                     env=dict(os.environ, VERIF_OUT=lwout, VERIF_LW_PAR="40" if quick else "400"), cwd=wd)
+    if p.returncode != 0:
+        what = vlib.fatal_in_code_under_test(p.stdout)
+        if not what:
+            raise Inconclusive("concurrent line writer harness failed (exit %d):\n%s" % (p.returncode, p.stdout[-2000:]))
+        with open(lwout, "a") as f:
+            f.write(json.dumps({"id": "lwpar-crash", "cfg": {"targets": {}, "sources": []},
+                                "events": [{"ev": "LinesPar", "wrote": {"a": 0, "b": 0, "lines": 0}, "got": {"a": 0, "b": 0, "lines": 0}, "panic": "fatal: " + what}]}) + "\n")
     lw = [json.loads(l) for l in open(lwout)]
     for t in lw:
         t["steps"] = []
